@@ -6,6 +6,7 @@ package eng
 // a behaviour-preserving change does not end in an inconclusive run.
 
 import (
+	"fmt"
 	"go/token"
 	"go/types"
 	"strconv"
@@ -445,6 +446,24 @@ func init() {
 			return Str{Segs: []Seg{{Q: "itoa_s(" + v.T.Key() + ")"}}}
 		}
 		return S(strconv.FormatInt(int64(v.C), int(a[1].(Int).C)))
+	})
+	reg("strconv.FormatFloat", func(g *G, fr *Frame, fn *ssa.Function, a []Value) Value {
+		v := a[0].(F64)
+		f, p, b := a[1].(Int), a[2].(Int), a[3].(Int)
+		if f.T != nil || p.T != nil || b.T != nil {
+			g.inconclusive("strconv.FormatFloat with symbolic format arguments")
+		}
+		if v.T != nil {
+			// opaque text of a symbolic float (only equal to itself)
+			return Str{Segs: []Seg{{Q: fmt.Sprintf("ftoa_%c%d_%d(%s)", byte(f.C), int64(p.C), int64(b.C), v.T.Key())}}}
+		}
+		return S(strconv.FormatFloat(v.C, byte(f.C), int(int64(p.C)), int(int64(b.C))))
+	})
+	reg("strconv.FormatBool", func(g *G, fr *Frame, fn *ssa.Function, a []Value) Value {
+		if g.branch(a[0].(Bool)) {
+			return S("true")
+		}
+		return S("false")
 	})
 	reg("strconv.FormatUint", func(g *G, fr *Frame, fn *ssa.Function, a []Value) Value {
 		v := a[0].(Int)
